@@ -157,8 +157,11 @@ PANDAS_COMPARISON_ON_NULL = {"==": False, "!=": True, "<": False, "<=": False, "
 _SQLITE_PERCENT = (r"\s%\s", r"FLOOR\(", "SQLite's % casts both operands to INTEGER and gives the result the sign of the dividend (sqlite.org/lang_expr.html): 5.5 % 2 = 1, "
                    "-7 % 2 = -1, 7.5 % 0.5 = NULL; the catalogued meaning (numpy.mod / remainder) is the floored modulo 1.5, 1, 0.0 — "
                    "x - FLOOR(x / (1.0 * y)) * y, the form the shared generator already has for remainder")
+_SQLITE_FLOOR_MOD = (r"FLOOR\(.*1\.0 \*", r"typeof\(", "the floored form x - FLOOR(x / (1.0 * y)) * y computes in double precision: for integers above 2**53 the result is wrong "
+                     "(1700000000123456999 % 1000 = -1 instead of 999); integer operands need an exact integer branch (typeof(x) = 'integer' ...)")
 SQL_TEMPLATE_CAVEATS = {
-    ("SQLiteModel", "%"): _SQLITE_PERCENT, ("SQLiteModel", "mod"): _SQLITE_PERCENT, ("SQLiteModel", "remainder"): _SQLITE_PERCENT,
+    ("SQLiteModel", "%"): [_SQLITE_PERCENT, _SQLITE_FLOOR_MOD], ("SQLiteModel", "mod"): [_SQLITE_PERCENT, _SQLITE_FLOOR_MOD],
+    ("SQLiteModel", "remainder"): [_SQLITE_PERCENT, _SQLITE_FLOOR_MOD],
     ("PostgreSQLModel", "as_int64"): (r"CAST\(.* AS (BIGINT|INTEGER|INT)\)", r"TRUNC\(|FLOOR\(",
                                       "PostgreSQL rounds to nearest when casting a float to an integer type (CAST(2.7 AS BIGINT) = 3, documentation 8.1 / "
                                       "numeric-to-integer casts round); the catalogued meaning, numpy astype(int64), truncates (2): wrap the argument in TRUNC()"),
